@@ -185,6 +185,11 @@ class TwoDirectories(object):
             for plan in (['AUX-MIB', 'COMMON-MIB'], ['COMMON-MIB', 'AUX-MIB'], ['USER-MIB'], [['AUX-MIB'], ['COMMON-MIB']],
                          [['COMMON-MIB'], ['COMMON-MIB']]):
                 yield {'f1': block['f1'], 'second': second, 'plan': plan}
+                # the first directory also holds a file whose name is a looser variant of the name (suffix removed) and that
+                # holds another module: the exact name, with any extension, is looked at first
+                # (files side by side: which of several directories of a tree is looked at first is not specified)
+                for decoy in (('COMMON', 'COMMON.txt', 'common') if '/' not in block['f1'] else ()):
+                    yield {'f1': block['f1'], 'second': second, 'plan': plan, 'decoy': decoy}
 
     def run_case(self, case):
         import json
@@ -210,6 +215,9 @@ class TwoDirectories(object):
                 os.makedirs(os.path.join(d1, os.path.dirname(case['f1'])))
             with open(os.path.join(d1, case['f1']), 'w') as f:
                 f.write(mod('COMMON-MIB', 1000))
+            if case.get('decoy'):
+                with open(os.path.join(d1, case['decoy']), 'w') as f:
+                    f.write(mod('COMMON', 5000))
             if case['second'] == 'index':
                 with open(os.path.join(d2, 'common-v2.dat'), 'w') as f:
                     f.write(mod('COMMON-MIB', 2000))
@@ -228,7 +236,8 @@ class TwoDirectories(object):
             comp.addSearchers(env.StubSearcher(*env.BASE_NAMES))
             calls = case['plan'] if isinstance(case['plan'][0], list) else [case['plan']]
             vs = []
-            sig = 'C08|two-directories|second-holds-it-%s' % ('under-an-indexed-name' if case['second'] == 'index' else 'regularly')
+            sig = 'C08|two-directories|second-holds-it-%s%s' % ('under-an-indexed-name' if case['second'] == 'index' else 'regularly',
+                                                                '|namesake-file-in-the-first' if case.get('decoy') else '')
             out = []
             for n, req in enumerate(calls):
                 del w.written[:]
